@@ -435,21 +435,35 @@ class Engine:
         detail = ''
         if st == 'unknown':
             detail = self.solver.reason_unknown()
+            if _os.environ.get('PYVC_DUMP'):
+                s_ = z3.Solver()
+                s_.add(self.solver.full.assertions())
+                s_.add(z3.Not(cond))
+                fn_ = _os.path.join(_os.environ['PYVC_DUMP'], '%s_%d.smt2' % (name.replace(':', '_').replace('/', '_'), len(self.obs)))
+                open(fn_, 'w').write(s_.to_smt2())
             # portfolio: the incremental solver gave up; the same query in fresh (non-incremental) solvers with other
             # random seeds.  Only a few times per function: a genuinely failing function fails many obligations.
             self.n_portfolio = getattr(self, 'n_portfolio', 0) + 1
             if self.n_portfolio <= 3:
-                for seed in (1, 2):
-                    s_ = z3.Solver()
+                for seed in (1, 2, 3):
+                    if seed < 3:
+                        s_ = z3.Solver()
+                        s_.add(self.solver.full.assertions())
+                        s_.add(z3.Not(cond))
+                    else:
+                        # the same query in a fresh z3 context (other term numbering: z3's search depends on it)
+                        ctx_ = z3.Context()
+                        s_ = z3.Solver(ctx=ctx_)
+                        for a_ in self.solver.full.assertions():
+                            s_.add(a_.translate(ctx_))
+                        s_.add(z3.Not(cond).translate(ctx_))
                     s_.set('timeout', self.timeout_ms)
                     s_.set('random_seed', seed)
-                    s_.add(self.solver.full.assertions())
-                    s_.add(z3.Not(cond))
                     r3 = s_.check()
                     if r3 == z3.unsat:
                         st, detail = 'unsat', 'fresh solver, seed %d' % seed
                         break
-                    if r3 == z3.sat:
+                    if r3 == z3.sat and seed < 3:
                         st, m, detail = 'sat', s_.model(), 'fresh solver, seed %d' % seed
                         break
             # small-scope retry: a model of pc /\ not cond with small containers is still a counterexample
